@@ -28,6 +28,20 @@ CHECKS = {
         technique="Lean 4 theorems about a hand-written executable model + exact differential correspondence on tapped distance matrices",
         ref="DESIGN.md §5 C10",
     ),
+    "C06": dict(
+        category="proof",
+        text="For every list of frames, overlap table, distance table, cut-off and both methods: the returned tracks are a permutation of all (droplet, frame time) pairs (track_partition); tracking always returns (track_total; the pre-repair ValueError is kept as a decide-checked counterexample theorem); in every step each existing track is kept or extended by exactly one droplet stamped with the frame's time, only if it ended at the previous time, and every other droplet starts a singleton track (stepDistance_shape for every table; stepOverlap_shape for frames whose droplets do not overlap one another) - with strictly increasing times this is one droplet per frame and a gap-free run. Lean theorems (induction over frames and over the inner loops, aliasing of tracks_alive made literal by indices) about an executable model run against the real from_emulsion_time_course on the same overlap/distance tables; exhaustive small lattice histories + random ones with births, deaths, empty frames, periodic wrap-around.",
+        note="Trusted: Lean kernel; propext/Classical.choice/Quot.sound; correspondence harness; tables come from the real overlaps()/cdist (metric checked against an independent periodic metric in C07/C10); copy-on-append and input immutability are checked on the real objects (bytes, identity), modelled in C20.",
+        technique="Lean 4 theorems about a hand-written executable model + exact differential correspondence",
+        ref="DESIGN.md §5 C06",
+    ),
+    "C07": dict(
+        category="proof",
+        text="Overlap method: every track is a chain of overlapping droplets (overlap_links_overlap, all time courses), the rule 'exactly one overlapping alive track continues, none or several start a new track' (overlap_rule, mem_hits). Distance method: every link is within the cut-off, after matching no unmatched track and unmatched droplet are within the cut-off (distance_maximal, fuel len+1 proved sufficient), the loop satisfies the independent specification IsGreedy ('repeatedly join the closest remaining pair') and that specification has a unique solution when distances are distinct. Same model and correspondence as C06; the use of the periodic metric is checked by recomputing overlaps/distances with an independent metric on the real outputs.",
+        note="Trusted: as C06. The frame-level one-to-one clause is checked on the implementation (predicate) and follows in the model from overlap_rule + the C06 loop invariant; it is not yet a separate theorem.",
+        technique="Lean 4 theorems about a hand-written executable model + exact differential correspondence",
+        ref="DESIGN.md §5 C07",
+    ),
 }
 
 NOT_APPLICABLE = {}
